@@ -77,18 +77,19 @@ InOut(b) == IF b THEN "in" ELSE "out"
 
 (* ---------------------------------------------------------------- ghost ----------------------- *)
 \* uses: slots the call reads or mutates (must be live); fresh: slots it creates (must be dead);
-\* touched: slots whose shadow value may change; oor: out-of-range accessor (any safe outcome accepted)
+\* touched: slots whose shadow value may change; oor: out-of-range accessor (any safe outcome accepted);
+\* n: position of the call in the history
 O(name, rel, uses, fresh, touched, args) ==
-  [name |-> name, rel |-> rel, oor |-> FALSE, uses |-> uses, fresh |-> fresh, touched |-> touched, a |-> args]
+  [name |-> name, rel |-> rel, oor |-> FALSE, uses |-> uses, fresh |-> fresh, touched |-> touched, a |-> args, n |-> op.n + 1]
 Oor(name, uses, args) ==
-  [name |-> name, rel |-> "out", oor |-> TRUE, uses |-> uses, fresh |-> {}, touched |-> {}, a |-> args]
+  [name |-> name, rel |-> "out", oor |-> TRUE, uses |-> uses, fresh |-> {}, touched |-> {}, a |-> args, n |-> op.n + 1]
 
 Init == /\ vec = [k \in VKinds |-> [x \in Pool |-> DeadV]]
         /\ sv = [x \in Pool |-> DeadV]
         /\ mx = [x \in Pool |-> DeadM]
         /\ tn = [x \in Pool |-> DeadT]
         /\ dl = [x \in Pool |-> DeadL]
-        /\ op = O("init", "na", {}, {}, {}, [x |-> ""])
+        /\ op = [name |-> "init", rel |-> "na", oor |-> FALSE, uses |-> {}, fresh |-> {}, touched |-> {}, a |-> [x |-> ""], n |-> 0]
 
 (* ---------------------------------------------------------------- dvector / uivector / ivector *)
 \* C names per kind; a call that a kind does not have is absent from its record
@@ -493,8 +494,8 @@ ShrinkLaw == [][/\ op'.name = "MatrixDeleteRowAt" =>
 
 (* ---------------------------------------------------------------- MC plumbing ----------------- *)
 CONSTANT Depth
-DepthBound == TLCGet("level") <= Depth + 1  \* exhaustive BFS to this many operations (the initial state is level 1)
-View == conts                               \* distinct states = distinct pool contents
+DepthBound == op.n <= Depth                 \* exhaustive to this many operations
+View == <<conts, op.n>>                     \* distinct states = distinct (pool contents, history length): exact for any worker count
 
 (* ---------------------------------------------------------------- history generator (GEN) ----- *)
 \* TLC's simulator is uniform over successor INSTANCES: one successor per operation kind, operands drawn with
@@ -528,7 +529,7 @@ GenVec(k) ==
   \/ L # {} /\ \E x \in One(L), v \in One(Vals) : VHas(k, x, v)
   \/ L # {} /\ \E x \in One(L), v \in One(Vals) : VIndexOf(k, x, v)
   \/ L # {} /\ \E x \in One(L), v \in One(Vals) : VFill(k, x, v)
-  \/ L # {} /\ \E x \in One(L) : VSort(k, x)
+  \/ NE # {} /\ \E x \in One(NE) : VSort(k, x)            \* empty vectors made by init* have data = NULL: qsort(NULL, 0) trips UBSan's nonnull check without touching memory
 
 GenSv ==
   LET L == {x \in Pool : SLive(x)}  D == {x \in Pool : ~SLive(x)}  NE == {x \in L : Len(sv[x].d) > 0}
@@ -600,7 +601,7 @@ GenSpec == Init /\ [][GenNext]_vars
 (* what the replay harness needs: the call, and the shadow value of every slot the call may have changed *)
 Touched(k) == {x \in Pool : <<k, x>> \in op.touched}
 Emit == PrintT("@@" \o ToJson([lvl |-> TLCGet("level"),
-                                op |-> [name |-> op.name, rel |-> op.rel, oor |-> op.oor, a |-> op.a],
+                                op |-> [name |-> op.name, rel |-> op.rel, oor |-> op.oor, a |-> op.a, n |-> op.n],
                                 post |-> [dv |-> [x \in Touched("dv") |-> vec["dv"][x]], uv |-> [x \in Touched("uv") |-> vec["uv"][x]],
                                           iv |-> [x \in Touched("iv") |-> vec["iv"][x]], sv |-> [x \in Touched("sv") |-> sv[x]],
                                           mx |-> [x \in Touched("mx") |-> mx[x]], tn |-> [x \in Touched("tn") |-> tn[x]],
